@@ -40,3 +40,9 @@ CHECK["assumptions"] = [
     "element type int with values 0..3; ring capacities 0..3",
     "single-threaded use (the containers are not documented as safe for concurrent use)",
 ]
+CHECK["stages"] = CHECK["stages"] + [{"name": "deep", "pkg": "./checks/c11/deep"}]
+CHECK["assumptions"] = CHECK["assumptions"] + [
+    "stage deep: queries are operations and the full observation happens only at the end of each sequence; its "
+    "breadth-first search is keyed by the model state and a reflection fingerprint of the implementation's complete "
+    "state (unexported fields included), so histories whose hidden state differs are all extended",
+]
